@@ -447,24 +447,15 @@ func (g *Grammar) InfoTerminals(rule string) map[string]string {
 		groups[projectRules(d)] = append(groups[projectRules(d)], d)
 	}
 	for proj, grp := range groups {
-		if proj == "" {
-			// derivations without any child rule: all their terminals carry the information
-			for _, d := range grp {
-				for _, s := range d {
-					if g.variableText(s) || len(grp) > 1 || len(groups) > 1 {
-						out[s] = "derivation has no child rule"
-					}
-				}
-			}
-			continue
-		}
-		if len(grp) < 2 {
-			// still: variable-text tokens are information even when determined
-			for _, s := range grp[0] {
+		// variable-text tokens always carry information
+		for _, d := range grp {
+			for _, s := range d {
 				if !strings.HasPrefix(s, "R:") && g.variableText(s) {
 					out[s] = "variable-text token"
 				}
 			}
+		}
+		if len(grp) < 2 {
 			continue
 		}
 		// terminals whose multiset differs between derivations with identical projection
@@ -479,25 +470,28 @@ func (g *Grammar) InfoTerminals(rule string) map[string]string {
 				}
 			}
 		}
+		found := false
 		for s := range all {
 			for i := 1; i < len(grp); i++ {
 				if counts[i][s] != counts[0][s] {
-					out[s] = "not determined by child-rule sequence [" + proj + "]"
+					if _, ok := out[s]; !ok {
+						out[s] = "not determined by child-rule sequence [" + proj + "]"
+					}
+					found = true
 					break
 				}
 			}
-			if g.variableText(s) {
-				out[s] = "variable-text token"
-			}
 		}
 		// same multiset but different order relative to children (e.g. prefix vs postfix)
-		if len(out) == 0 {
+		if !found {
 			first := strings.Join(grp[0], " ")
 			for _, d := range grp[1:] {
 				if strings.Join(d, " ") != first {
 					for _, s := range d {
 						if !strings.HasPrefix(s, "R:") {
-							out[s] = "position not determined by child-rule sequence [" + proj + "]"
+							if _, ok := out[s]; !ok {
+								out[s] = "position not determined by child-rule sequence [" + proj + "]"
+							}
 						}
 					}
 				}
